@@ -283,7 +283,7 @@ Section Compare.
 Variable cmp : F -> F -> F -> bool.
 Definition cmp_v3 (t : F) (a b : @vec3 F) := cmp (vx a) (vx b) t && cmp (vy a) (vy b) t && cmp (vz a) (vz b) t.
 Definition cmp_q (t : F) (a b : @quat F) := cmp_v3 t (qv a) (qv b) && cmp (qw a) (qw b) t.
-Fixpoint all2 {A} (f : A -> A -> bool) (a b : list A) : bool :=
+Fixpoint all2 {A B} (f : A -> B -> bool) (a : list A) (b : list B) : bool :=
   match a, b with
   | [], [] => true
   | x :: a', y :: b' => f x y && all2 f a' b'
@@ -344,8 +344,9 @@ Definition imu_bad (cs : list ecase) : list nat :=
   map (fun e => match e with (i, _, _, _, _, _, _, _) => i end) (filter (fun e => negb (case_ok e)) cs).
 End Eval.
 
-(* exact route: Q, equality *)
-Definition imu_bad_Q : list (@ecase Q) -> list nat := imu_bad (fun a b _ => Qeq_bool a b).
+(* exact route: the model's exact rational value; |model - impl| <= tol with tol = 0 wherever the
+   inputs are chosen so that float64 performs no rounding *)
+Definition imu_bad_Q : list (@ecase Q) -> list nat := imu_bad (fun a b t => Qle_bool (Qabs (a - b)) t).
 
 (* tolerance route: 256-bit binary fixed point on BigZ (value = z / 2^256); multiplication and
    division truncate to a multiple of 2^-256, far below every tolerance of the check *)
